@@ -97,6 +97,16 @@ impl StateMachine {
                         backup.epoch
                     );
                     backup
+                } else if backup.epoch > config.epoch {
+                    // The stored state belongs to a later epoch. The replica of a later epoch is only started
+                    // once the last block of this epoch has been persisted, so this epoch is over and there is
+                    // nothing left to do for this instance. In particular it must not overwrite that state.
+                    tracing::trace!(
+                        "ChonkyBFT replica - Backup epoch {} is newer than epoch {}, stopping.",
+                        backup.epoch,
+                        config.epoch
+                    );
+                    return Err(ctx::Canceled.into());
                 } else {
                     // If the backup epoch does not match the current epoch, we return a default state.
                     // This will cause the replica to start from the beginning of the current epoch.
